@@ -276,6 +276,20 @@ func newDecoder(fileIO fileIO, delegate DecoderDelegate, indexPath string, numGo
 		return nil, err
 	}
 
+	// The number of checksum pairs of a file must match its byte
+	// count, since the latter is used to cut the file out of its
+	// slices.
+	sliceByteCount := indexFile.mainPacket.sliceByteCount
+	for _, info := range recoverySet {
+		sliceCount := info.byteCount / sliceByteCount
+		if info.byteCount%sliceByteCount != 0 {
+			sliceCount++
+		}
+		if sliceCount != len(info.checksumPairs) {
+			return nil, errors.New("slice checksum count does not match file byte count")
+		}
+	}
+
 	return &Decoder{
 		fileIO, delegate,
 		indexPath,
